@@ -34,3 +34,21 @@ def _to_list(shape):
 
 def subsets_of(n, max_size=None):
     return st.lists(st.integers(0, max(n - 1, 0)), unique=True, max_size=n if max_size is None else max_size).map(sorted)
+
+
+def tree_mutation_op(rename_values=None):
+    idx = st.integers(0, 60)
+    ops = [
+        st.tuples(st.just("move"), idx, idx).map(list),
+        st.tuples(st.just("move"), idx, idx).map(list),
+        st.tuples(st.just("detach"), idx).map(list),
+        st.tuples(st.just("reverse"), idx).map(list),
+    ]
+    if rename_values is not None:
+        ops.append(st.tuples(st.just("rename"), idx, rename_values).map(list))
+    return st.one_of(*ops)
+
+
+def tree_mutations(max_ops=3, rename_values=None):
+    """0..max_ops mutations applied between repeated evaluations of a read-only query (see refs.mutate_tree)."""
+    return st.lists(tree_mutation_op(rename_values), max_size=max_ops)
